@@ -807,10 +807,17 @@ class tzfile(_tzinfo):
         if idx is None or idx < 0:
             return idx
 
-        # If it's ambiguous and we're in a fold, shift to a different index.
-        idx_offset = int(not _fold and self.is_ambiguous(dt, idx))
+        # If it's ambiguous and this is the first pass through the repeated
+        # interval, the instant is the wall time read with the offset in
+        # force before the transition; an earlier transition may lie inside
+        # the interval, so look the instant up instead of stepping back one.
+        if not _fold and self.is_ambiguous(dt, idx):
+            utc = (_datetime_to_timestamp(dt) -
+                   self._get_ttinfo(idx - 1).offset)
 
-        return idx - idx_offset
+            return bisect.bisect_right(self._trans_list_utc, utc) - 1
+
+        return idx
 
     def utcoffset(self, dt):
         if dt is None:
